@@ -11,7 +11,7 @@ from fractions import Fraction as F
 from mc import domains as D
 from mc.engine import InputPart, Viol
 from mc.models import ival
-from mc.props.common import IT, PT, Textgrid, call, ents, wellformed, canon
+from mc.props.common import IT, PT, Textgrid, call, ents, wellformed, canon, fresh
 
 NC = 6
 
@@ -115,12 +115,22 @@ def _check_pair_on(ea, eb, LO, HI, spanb):
             msg = "mergeLabels ill-formed: " + wellformed(m)
         if msg:
             viols.append(Viol("mergeLabels-result", msg + "  [" + tag + "]"))
+        # an explicitly given demarcator (positional and keyword; the empty string and the default value given explicitly included)
+        for dem, kw in (("@", False), ("", False), ("", True), (",", True), (" - ", True)):
+            st, m2, _ = call(A.mergeLabels, B, demarcator=fresh(dem)) if kw else call(A.mergeLabels, B, fresh(dem))
+            if st == "exc":
+                viols.append(Viol("mergeLabels-raised:" + type(m2).__name__, f"{tag} demarcator={dem!r}: {m2!r}"))
+                break
+            msg = ival.compare_entries(ents(m2), ival.merge_labels(FA, FB, dem), True, f"mergeLabels(demarcator={dem!r})")
+            if msg:
+                viols.append(Viol("mergeLabels-demarcator", msg + "  [" + tag + "]"))
+                break
 
     if (canon(A), canon(B)) != before:
         viols.append(Viol("operand-mutated", tag))
     nov = sum(1 for a in FA for b in FB if ival.overlaps(a, b))
     ntouch = sum(1 for a in FA for b in FB if a[1] == b[0] or b[1] == a[0])
-    return 4, f"ov{nov}", (tuple((s, e) for s, e, _ in ea), tuple((s, e) for s, e, _ in eb), spanb) if nov or ntouch else None, viols
+    return 9, f"ov{nov}", (tuple((s, e) for s, e, _ in ea), tuple((s, e) for s, e, _ in eb), spanb) if nov or ntouch else None, viols
 
 
 def _check_points(case):
@@ -221,7 +231,7 @@ def parts(tier):
     ps.append(InputPart(
         "setops-interval-pairs", gen_pairs, _check_pair,
         rule="all ordered pairs (A,B) of the %d interval tiers on %d unit cells (touching, nested, identical, empty "
-             "included), every entry uniquely labelled; each case runs union, difference, intersection, mergeLabels "
+             "included), every entry uniquely labelled; each case runs union, difference, intersection, mergeLabels (default demarcator and 5 explicitly given ones, incl. the empty string) "
              "and the partition consequence; non-trivial = distinct geometry pairs with at least one overlap or touch"
              % (len(base), NC),
         bounds={"cells": NC, "tiers": len(base), "thorough_adds": "2-label tiers on 5 cells, B span 8"}))
